@@ -192,7 +192,7 @@ crate::mq_harness_real!(c16_protocol_seq, hk_c16_protocol_seq, Runner<MemProg<fa
 //   two or three tokens; in every round a solver-chosen subset of them announces (a handle
 //   that lags does no operation in that round); ROUNDS x 21 retirements.
 
-pub fn churn_conservation<const ROUNDS: usize>() {
+pub fn churn_conservation<const ROUNDS: usize, const LAG: u8>() {
     sched::configure(0, 0, 0, 0);
     let mgr = MemoryManager::new();
     let t1 = mgr.get_token();
@@ -203,8 +203,10 @@ pub fn churn_conservation<const ROUNDS: usize>() {
     let mut round = 0;
     while round < ROUNDS {
         // which handles run an operation (and therefore announce) before this round's retirements
-        let a1: bool = kani::any();
-        let a2: bool = kani::any();
+        // LAG 0: every handle operates in every round; 1: handle 2 does nothing in round 2 (it lags
+        // behind exactly while the first batch waits for it); 2: the solver chooses per round
+        let a1: bool = if LAG == 2 { kani::any() } else { true };
+        let a2: bool = if LAG == 2 { kani::any() } else { !(LAG == 1 && round == 1) };
         if a1 {
             if mgr.signal.load(Ordering::Relaxed).get_epoch() {
                 mgr.update_token(t1);
@@ -249,12 +251,14 @@ pub fn churn_conservation<const ROUNDS: usize>() {
         (w + b) as u32 <= 42,
         "C17: with every handle announcing, more than two batches of retired memory are still held"
     );
-    kani::cover!(lagged && freed >= 21, "a batch was reclaimed although a handle lagged for a round");
+    kani::cover!(LAG == 0 || (lagged && freed >= 21), "a batch was reclaimed although a handle lagged for a round");
     std::mem::forget(mgr);
 }
 
-crate::mq_harness_real!(c17_churn_r2, hk_c17_churn_r2, Idle, churn_conservation::<2>());
-crate::mq_harness_real!(c17_churn_r3, hk_c17_churn_r3, Idle, churn_conservation::<3>());
+crate::mq_harness_real!(c17_churn_r2, hk_c17_churn_r2, Idle, churn_conservation::<2, 2>());
+crate::mq_harness_real!(c17_churn_r3_nolag, hk_c17_churn_r3_nolag, Idle, churn_conservation::<3, 0>());
+crate::mq_harness_real!(c17_churn_r3_lag, hk_c17_churn_r3_lag, Idle, churn_conservation::<3, 1>());
+crate::mq_harness_real!(c17_churn_r3, hk_c17_churn_r3, Idle, churn_conservation::<3, 2>());
 
 // ==========================================================================================
 // C16 whole queue, REAL memory manager: the last handle of a stream is dropped (outer operation:
